@@ -285,7 +285,7 @@ fn visit_statement(
         } else {
             (Vec::new(), rhe.clone())
         };
-        if let (Some(Component), Call { meta, name: template_name, .. }) =
+        if let (Some(Component | AnonymousComponent), Call { meta, name: template_name, .. }) =
             (cfg.get_type(var_name), rhe)
         {
             components.push(ComponentData::new(&meta, var_name, &var_access, &template_name));
